@@ -28,7 +28,7 @@ package replication
 //@ func (*worker).Start$1
 //@   nonblocking
 //@   requires *w != nil && (*w).workerFactory != nil && (*w).engine != nil && (*w).engine.Manager != nil && (*w).engine.Manager.store != nil && (*w).metrics.replicationLeased != nil && (*w).log != nil
-//@   modifies (*w).leased.v, family(CH_len), world.clock, (*w).engine.Manager.store.rHas, (*w).engine.Manager.store.rPair, (*w).engine.Manager.store.nwk, (*w).engine.Manager.store.wVal, (*w).engine.Manager.store.wVer, (*w).engine.Manager.store.wDel, (*w).engine.Manager.store.wPrevHas, (*w).engine.Manager.store.wPrev
+//@   modifies (*w).leased.v, family(CH_len), world.clock, (*w).engine.Manager.store.rHas, (*w).engine.Manager.store.rMiss, (*w).engine.Manager.store.rPair, (*w).engine.Manager.store.nwk, (*w).engine.Manager.store.wVal, (*w).engine.Manager.store.wVer, (*w).engine.Manager.store.wDel, (*w).engine.Manager.store.wPrevHas, (*w).engine.Manager.store.wPrev
 //@   loop 0 invariant (*w).workerFactory == old((*w).workerFactory) && (*w).engine == old((*w).engine) && (*w).engine.Manager == old((*w).engine.Manager) && (*w).engine.Manager.store == old((*w).engine.Manager.store)
 //@   loop 0 step [C15.flag] (*w).leased.v == (err == nil ? 1 : 0)
 
@@ -44,7 +44,7 @@ package replication
 //@   requires w != nil && w.engine != nil && w.engine.Manager != nil && w.engine.Manager.store != nil && w.engine.Manager.nh != nil
 //@   ensures [C05.state.leaderidx] err == nil ==> typeIs(w.engine.Manager.nh.lastReq, fsm.LeaderIndexRequest)
 //@   ensures [C05.state.shard] err == nil ==> cid == tableOf(bytesOf(w.engine.Manager.store.rPair[tkey(w.table)].Value)).ClusterID
-//@   modifies w.engine.Manager.store.rHas, w.engine.Manager.store.rPair, w.engine.Manager.nh.nsync, w.engine.Manager.nh.nstale, w.engine.Manager.nh.lastReq, w.engine.Manager.nh.lastAns
+//@   modifies w.engine.Manager.store.rHas, w.engine.Manager.store.rMiss, w.engine.Manager.store.rPair, w.engine.Manager.nh.nsync, w.engine.Manager.nh.nstale, w.engine.Manager.nh.lastReq, w.engine.Manager.nh.lastAns
 // recover (the leader answered USE_SNAPSHOT): asks the leader for a snapshot of THIS table, saves the
 // stream to a temporary file, and restores THIS table from that file rewound to its beginning
 //@ import snapshot "github.com/jamf/regatta/replication/snapshot"
@@ -69,7 +69,7 @@ package replication
 //@   before regattapb.SnapshotClient.Stream assert [C07.recover.table+C05] in != nil && bytesOf(in.Table) == bytesOf(w.table)
 //@   before snapshot.(*snapshotFile).Sync assert [C05.recover.complete+C07] world.copyok      // a stream that broke off is not restored as the leader's table
 //@   before table.(*Manager).Restore assert [C07.recover.restore+C05] name == w.table && typeIs(reader, *snapshot.snapshotFile) && asType(reader, *snapshot.snapshotFile) != nil && asType(reader, *snapshot.snapshotFile).File.rest == asType(reader, *snapshot.snapshotFile).File.whole
-//@   modifies family(CH_len), family(G_any_rest), family(G_any_sdata), family(G_any_slen), family(G_any_nrecv), allelems(uint8), w.engine.Manager.store.rHas, w.engine.Manager.store.rPair, w.engine.Manager.store.nwk, w.engine.Manager.store.wVal, w.engine.Manager.store.wVer, w.engine.Manager.store.wDel, w.engine.Manager.store.wPrevHas, w.engine.Manager.store.wPrev, family(G_any_nrec), family(G_any_rtotal), family(G_any_leaderOf), w.engine.Manager.nh.lastRes, w.engine.Manager.nh.lastErr, w.engine.Manager.nh.lastCmd, w.engine.Manager.nh.nelem, w.engine.Manager.nh.nseq
+//@   modifies family(CH_len), family(G_any_rest), family(G_any_sdata), family(G_any_slen), family(G_any_nrecv), allelems(uint8), w.engine.Manager.store.rHas, w.engine.Manager.store.rMiss, w.engine.Manager.store.rPair, w.engine.Manager.store.nwk, w.engine.Manager.store.wVal, w.engine.Manager.store.wVer, w.engine.Manager.store.wDel, w.engine.Manager.store.wPrevHas, w.engine.Manager.store.wPrev, family(G_any_nrec), family(G_any_rtotal), family(G_any_leaderOf), w.engine.Manager.nh.lastRes, w.engine.Manager.nh.lastErr, w.engine.Manager.nh.lastCmd, w.engine.Manager.nh.nelem, w.engine.Manager.nh.nseq
 //@ func (tableQueueLenStore).Max
 //@   assumed
 //@   modifies nothing
@@ -90,7 +90,7 @@ package replication
 //@ func (*worker).Start$3
 //@   maypanic
 //@   requires *w != nil && (*w).workerFactory != nil && (*w).engine != nil && (*w).engine.Manager != nil && (*w).engine.Manager.store != nil && (*w).engine.Manager.nh != nil && (*w).engine.Manager.log != nil && (*w).snapshotClient != nil && (*w).log != nil && (*w).recoverySemaphore != nil && (*w).engine.NodeHost != nil && (*w).logClient != nil && (*w).metrics.replicationFollowerIndex != nil && (*w).metrics.replicationLeaderIndex != nil && 0 <= (*w).throttle.speed && (*w).throttle.speed < 5
-//@   modifies (*w).engine.Manager.nh.lastRes, (*w).engine.Manager.nh.lastErr, (*w).engine.Manager.nh.lastCmd, (*w).engine.Manager.nh.nelem, (*w).engine.Manager.nh.nseq, family(G_any_rest), family(G_any_sdata), family(G_any_slen), family(G_any_nrecv), family(G_any_nrec), family(G_any_rtotal), family(G_any_leaderOf), allelems(uint8), (*w).engine.Manager.nh.nsync, (*w).engine.Manager.nh.nstale, (*w).engine.Manager.nh.lastReq, (*w).engine.Manager.nh.lastAns, (*w).engine.NodeHost.lastRes, (*w).engine.NodeHost.lastErr, (*w).engine.NodeHost.lastCmd, (*w).engine.NodeHost.nelem, (*w).engine.NodeHost.nseq, allfields(worker), allfields(replicationThrottle), family(CH_len), world.clock, (*w).engine.Manager.store.rHas, (*w).engine.Manager.store.rPair, (*w).engine.Manager.store.nwk, (*w).engine.Manager.store.wVal, (*w).engine.Manager.store.wVer, (*w).engine.Manager.store.wDel, (*w).engine.Manager.store.wPrevHas, (*w).engine.Manager.store.wPrev
+//@   modifies (*w).engine.Manager.nh.lastRes, (*w).engine.Manager.nh.lastErr, (*w).engine.Manager.nh.lastCmd, (*w).engine.Manager.nh.nelem, (*w).engine.Manager.nh.nseq, family(G_any_rest), family(G_any_sdata), family(G_any_slen), family(G_any_nrecv), family(G_any_nrec), family(G_any_rtotal), family(G_any_leaderOf), allelems(uint8), (*w).engine.Manager.nh.nsync, (*w).engine.Manager.nh.nstale, (*w).engine.Manager.nh.lastReq, (*w).engine.Manager.nh.lastAns, (*w).engine.NodeHost.lastRes, (*w).engine.NodeHost.lastErr, (*w).engine.NodeHost.lastCmd, (*w).engine.NodeHost.nelem, (*w).engine.NodeHost.nseq, allfields(worker), allfields(replicationThrottle), family(CH_len), world.clock, (*w).engine.Manager.store.rHas, (*w).engine.Manager.store.rMiss, (*w).engine.Manager.store.rPair, (*w).engine.Manager.store.nwk, (*w).engine.Manager.store.wVal, (*w).engine.Manager.store.wVer, (*w).engine.Manager.store.wDel, (*w).engine.Manager.store.wPrevHas, (*w).engine.Manager.store.wPrev
 //@   before replication.(*worker).do assert [C15.gate] (*w).leased.v != 0
 // the session used for proposing is derived, on every poll, from the shard the table currently points at
 //@   before replication.(*worker).do assert [C05.session] session == noopS(id) && leaderIndex == idx
@@ -177,7 +177,7 @@ package replication
 //@   requires w != nil && w.log != nil && w.engine != nil && w.engine.Manager != nil && w.engine.Manager.store != nil && !chanClosed(w.closer)
 //@   before sync.(*WaitGroup).Wait assert [C15.close.signal] chanClosed(w.closer)
 //@   before table.(*Manager).ReturnTable assert [C15.close.order+C05] w.wg.waited && name == w.table
-//@   modifies family(CH_closed), family(G_any_waited), w.engine.Manager.store.rHas, w.engine.Manager.store.rPair, w.engine.Manager.store.nwk, w.engine.Manager.store.wVal, w.engine.Manager.store.wVer, w.engine.Manager.store.wDel, w.engine.Manager.store.wPrevHas, w.engine.Manager.store.wPrev
+//@   modifies family(CH_closed), family(G_any_waited), w.engine.Manager.store.rHas, w.engine.Manager.store.rMiss, w.engine.Manager.store.rPair, w.engine.Manager.store.nwk, w.engine.Manager.store.wVal, w.engine.Manager.store.wVer, w.engine.Manager.store.wDel, w.engine.Manager.store.wPrevHas, w.engine.Manager.store.wPrev
 
 // ---------------------------------------------------------------- the worker manager (C05, C15)
 
@@ -240,7 +240,7 @@ package replication
 //@   requires m != nil && m.log != nil && worker != nil && m.workers.registry != nil && worker.log != nil && worker.engine != nil && worker.engine.Manager != nil && worker.engine.Manager.store != nil && !chanClosed(worker.closer)
 //@   before replication.(*worker).Close assert [C15.mgr.stop+C05] w == worker
 //@   ensures [C05.mgr.unregister] !has(m.workers.registry, worker.table)
-//@   modifies elems(m.workers.registry), family(CH_closed), family(G_any_waited), worker.engine.Manager.store.rHas, worker.engine.Manager.store.rPair, worker.engine.Manager.store.nwk, worker.engine.Manager.store.wVal, worker.engine.Manager.store.wVer, worker.engine.Manager.store.wDel, worker.engine.Manager.store.wPrevHas, worker.engine.Manager.store.wPrev
+//@   modifies elems(m.workers.registry), family(CH_closed), family(G_any_waited), worker.engine.Manager.store.rHas, worker.engine.Manager.store.rMiss, worker.engine.Manager.store.rPair, worker.engine.Manager.store.nwk, worker.engine.Manager.store.wVal, worker.engine.Manager.store.wVer, worker.engine.Manager.store.wDel, worker.engine.Manager.store.wPrevHas, worker.engine.Manager.store.wPrev
 // the manager's service loop: a failed reconciliation skips one round, it does not end the service
 // reconcileTables: a successful round has read the leader's table list AND the follower's own
 // catalogue (whatever the leader's list holds - also when it is empty); only tables found absent on
@@ -267,7 +267,7 @@ package replication
 //@   ensures [C05.tables.read+C14] result == nil ==> fresh(m.engine.Manager.lastTables)
 //@   before table.(*Manager).DeleteTable assert [C05.tables.prune] exists j int :: 0 <= j && j < len(toDelete) && toDelete[j] == name
 //@   before table.(*Manager).CreateTable assert [C05.tables.create] exists j int :: 0 <= j && j < len(toCreate) && toCreate[j] == name
-//@   modifies m.engine.Manager.lastTables, family(G_any_rHas), family(G_any_rPair), family(G_any_nwk), family(G_any_wVal), family(G_any_wVer), family(G_any_wDel), family(G_any_wPrevHas), family(G_any_wPrev), world.clock
+//@   modifies m.engine.Manager.lastTables, family(G_any_rHas), family(G_any_rMiss), family(G_any_rPair), family(G_any_nwk), family(G_any_wVal), family(G_any_wVer), family(G_any_wDel), family(G_any_wPrevHas), family(G_any_wPrev), world.clock
 //@   loop 0 invariant -1 <= rangeindex && rangeindex < len(followerTables) && fresh(m.engine.Manager.lastTables) && (isNilSlice(toDelete) || fresh(toDelete))
 //@   loop 1 invariant -1 <= rangeindex && rangeindex < len(leaderTables) && fresh(m.engine.Manager.lastTables) && (isNilSlice(toDelete) || fresh(toDelete)) && (isNilSlice(toCreate) || fresh(toCreate))
 //@   loop 2 invariant -1 <= rangeindex && rangeindex < len(toDelete) && m.engine == old(m.engine) && m.engine.Manager == old(m.engine.Manager) && m.engine.Manager.store == old(m.engine.Manager.store) && m.engine.Manager.nh == old(m.engine.Manager.nh) && fresh(m.engine.Manager.lastTables)
@@ -278,7 +278,7 @@ package replication
 //@ func (*Manager).Start$1
 //@   maypanic
 //@   requires *m != nil && (*m).log != nil && allocated((*m).closer) && (*m).metadataClient != nil && (*m).engine != nil && (*m).engine.Manager != nil && (*m).engine.Manager.store != nil && (*m).engine.Manager.nh != nil
-//@   modifies (*m).engine.Manager.lastTables, family(G_any_rHas), family(G_any_rPair), family(G_any_nwk), family(G_any_wVal), family(G_any_wVer), family(G_any_wDel), family(G_any_wPrevHas), family(G_any_wPrev), world.clock
+//@   modifies (*m).engine.Manager.lastTables, family(G_any_rHas), family(G_any_rMiss), family(G_any_rPair), family(G_any_nwk), family(G_any_wVal), family(G_any_wVer), family(G_any_wDel), family(G_any_wPrevHas), family(G_any_wPrev), world.clock
 //@   loop 0 invariant *m == old(*m) && (*m).log != nil && (*m).closer == old((*m).closer) && t != nil && t.C != (*m).closer && (*m).metadataClient != nil && (*m).engine == old((*m).engine) && (*m).engine.Manager == old((*m).engine.Manager) && (*m).engine.Manager.store == old((*m).engine.Manager.store) && (*m).engine.Manager.nh == old((*m).engine.Manager.nh)
 //@   loop 0 leave [C05.mgr.alive+C15] world.lastSel == (*m).closer
 
